@@ -1185,7 +1185,7 @@ def run_c09(o, tier, rng, prep):
 # ================================================================= session properties (real binary)
 WS = [0x9, 0xa, 0xb, 0xc, 0xd, 0x20, 0x85, 0xa0, 0x1680] + list(range(0x2000, 0x200b)) + [0x2028, 0x2029, 0x202f, 0x205f, 0x3000]
 GARBAGE = ["", " ", "   ", "\t", "xyzzy", "isreadyy", "go2", "Position startpos", "żółć", "∀x", "  ", "stop", "ponderhit",
-           "debug on", "register later", "uci2", "0000", "position", "quit now"[:4] + "x", "readyok", "bestmove e2e4", " isready"]
+           "debug on", "register later", "uci2", "0000", "quit now"[:4] + "x", "readyok", "bestmove e2e4", " isready"]
 
 
 def spec_words(s):
